@@ -228,6 +228,13 @@ def select_by_key(ctx, prog):
                     # every key comparison of the predicate (a conjunction for composite keys) has the wanted polarity
                     found += 1
                     pol = want if all(p_ == want for p_ in pols) else [p_ for p_ in pols if p_ != want][0]
+                    if pol == want and want == "eq" and len(pols) > 1:
+                        # a composite key is matched by a conjunction: `true` comes only from the last comparison,
+                        # never from a short-circuit (`a == x || b == y` would select on either part of the key)
+                        short_true = [blk for blk in cb.blocks if not blk.get("cleanup") for st in blk["s"]
+                                      if "lhs" in st and st["lhs"]["l"] == 0 and not st["lhs"].get("p") and st["rv"]["k"] == "use" and (op_const(st["rv"]["a"]) or {}).get("v") == 1]
+                        if short_true:
+                            pol = "or"
                     if pol == want:
                         ctx.ok(rule, cb.id, "%s predicate compares item %s key: %s" % (callee_path(t).rsplit("::", 1)[-1], "==" if want == "eq" else "!=", meaning), site=cb.fn_loc())
                     else:
